@@ -72,7 +72,7 @@ class ModuleIndexPage(Page):
     @renderer
     def stuff(self, request: object, tag: Tag) -> Tag:
         tag.clear()
-        tag([moduleSummary(o, self.filename) for o in self.system.rootobjects])
+        tag([moduleSummary(o, self.filename) for o in self.system.rootobjects if o.isVisible])
         return tag
 
     @renderer
@@ -308,6 +308,8 @@ class IndexPage(Page):
     def roots(self, request: object, tag: Tag) -> "Flattenable":
         r = []
         for o in self.system.rootobjects:
+            if not o.isVisible:
+                continue
             r.append(tag.clone().fillSlots(root=tags.code(
                 linker.taglink(o, self.filename)
                 )))
